@@ -472,6 +472,17 @@ func (e *verifEnv) ShiftTOTPLimiter(user string, d time.Duration) {
 	e.State.totpLocalRateLimit[user] = v
 }
 
+// AgeBootstrapOTP rewrites the stored profile so that the bootstrap OTP looks d
+// older ("d has passed"): its expiry moves d into the past direction.
+func (e *verifEnv) AgeBootstrapOTP(user string, d time.Duration) error {
+	p, ok, _, err := e.State.LoadUserProfile(user)
+	if err != nil || !ok {
+		return fmt.Errorf("no profile for %s: %v", user, err)
+	}
+	p.BootstrapOTP.ExpiresAt = p.BootstrapOTP.ExpiresAt.Add(-d)
+	return e.State.SaveUserProfile(user, p)
+}
+
 // CA certificates exactly as main() adds them to the TLS client pool.
 func (e *verifEnv) ClientCAPool() *x509.CertPool {
 	pool := x509.NewCertPool()
